@@ -11,6 +11,7 @@ for a in sorted(d for d in os.listdir(root) if re.fullmatch(r"[AB]\d", d)):
         m = re.match(r"RESULT (\S+) suite_with_patch=(\S+) demo_with_patch=(\S+) demo_without_patch=(\S+)", line)
         if m:
             conf[os.path.basename(m.group(1))] = m.groups()[1:]
+    wave = "5" if a[0] == "A" else "6"
     for k in (1, 2, 3):
         src = os.path.join(root, a, "out", f"m{k}")
         if not os.path.exists(os.path.join(src, "patch.diff")):
@@ -42,7 +43,7 @@ for a in sorted(d for d in os.listdir(root) if re.fullmatch(r"[AB]\d", d)):
         meta = {
             "property": p, "breaks": f"{p}: {text[p]['title']}",
             "needs_to_manifest": "see README.md (written by the author of the change)",
-            "author": f"independent sub-agent (wave {"5" if a[0]=="A" else "6"}, focus area {a}) given the texts of all 19 properties and a scratch worktree of /repo (no access to /verif); it chose the property",
+            "author": f"independent sub-agent (wave {wave}, focus area {a}) given the texts of all 19 properties and a scratch worktree of /repo (no access to /verif); it chose the property",
             "confirmed": {"how": f"scripts/confirm_mutant.sh in the scratch worktree {root}/{a}: patch applies, go build ./... ok, existing suite passes with the patch, demo (copied into {fl[1]}, go test -run {fl[2]}) fails with the patch and passes without it", "suite_with_patch": c[0], "demo_with_patch": c[1], "demo_without_patch": c[2]},
             "demo": {"copy_to": fl[1] + "/", "run": f"GOFLAGS=-mod=mod go test -vet=off -count=1 -run '{fl[2]}' ./{fl[1]}/"},
             "checks_run": [f"./vcheck {p} --tier quick (seed 1), change applied with git -C /repo apply and reverted afterwards"],
